@@ -345,7 +345,7 @@ func (store *fileStore) SaveMessageAndIncrNextSenderMsgSeqNum(seqNum int, msg []
 	if err != nil {
 		return err
 	}
-	verifCrashPoint("SaveMessageAndIncr.between", "")
+	verifCrashPoint("SaveMessageAndIncr.between", store.bodyFname)
 	return store.IncrNextSenderMsgSeqNum()
 }
 
@@ -355,7 +355,7 @@ func (store *fileStore) syncBodyAndHeaderFilesLocked() error {
 	} else if err = store.headerFile.Sync(); err != nil {
 		return fmt.Errorf("unable to flush file: %s: %s", store.headerFname, err.Error())
 	}
-	verifCrashPoint("sync.bodyAndHeader", "")
+	verifCrashPoint("sync.bodyAndHeader", store.bodyFname)
 	return nil
 }
 
